@@ -224,6 +224,32 @@ def strip_generics(s):
     return s
 
 
+_sag_cache = {}
+
+
+def strip_all_generics(s):
+    """remove every `::<...>` group (turbofish generic arguments) anywhere in a path"""
+    r = _sag_cache.get(s)
+    if r is not None: return r
+    out = []; i = 0; n = len(s)
+    while i < n:
+        if s.startswith('::<', i):
+            depth = 0; j = i + 2
+            while j < n:
+                c = s[j]
+                if c == '<': depth += 1
+                elif c == '>' and s[j - 1] != '-':
+                    depth -= 1
+                    if depth == 0: break
+                j += 1
+            i = j + 1
+            continue
+        out.append(s[i]); i += 1
+    r = ''.join(out)
+    _sag_cache[s] = r
+    return r
+
+
 def _matching_open(s):
     depth = 0
     for i in range(len(s) - 1, -1, -1):
@@ -1038,10 +1064,10 @@ def O_unwrap(ex, n, a):
     o = opt(a[0])
     if o is None: return NotImplemented
     selfp = parse_name(n)[0]
-    if 'Option' in selfp:
+    if re.match(r'(std|core)::option::Option\b', selfp):
         if o.variant == 0: raise Panic('called `Option::unwrap()` on a `None` value')
         return o.fields[0]
-    if 'Result' in selfp:
+    if re.match(r'(std|core)::result::Result\b', selfp):
         if o.variant == 1: raise Panic('called `Result::unwrap()` on an `Err` value')
         return o.fields[0]
     return NotImplemented
@@ -1084,9 +1110,9 @@ def O_as_ref(ex, n, a):
     if isinstance(o, BoxV): return Ref(o.cell)
     if not isinstance(o, Agg): return a[0]         # AsRef identity-like (Vec -> slice)
     selfp = parse_name(n)[0]
-    if 'Option' in selfp:
+    if re.match(r'(std|core)::option::Option\b', selfp):
         return none() if o.variant == 0 else some(Ref(a[0].cell, a[0].path + (('field', 0),)))
-    if 'Result' in selfp:
+    if re.match(r'(std|core)::result::Result\b', selfp):
         return Agg('adt', 'Result', o.variant, [Ref(a[0].cell, a[0].path + (('field', 0),))])
     return a[0]
 
@@ -1133,7 +1159,7 @@ def O_take(ex, n, a):
 def O_replace(ex, n, a):
     if isinstance(a[0], Ref) and len(a) == 2:
         old = a[0].get()
-        if 'Option' in parse_name(n)[0]:
+        if re.match(r'(std|core)::option::Option\b', parse_name(n)[0]):
             a[0].set(some(a[1])); return old
         a[0].set(a[1]); return old
     return NotImplemented
